@@ -21,7 +21,8 @@ EXPLANATION = (
     "`?`->unwrap, get->index, try_from->as followed by slicing — is the violation. Also re-checks the guards that keep "
     "lazy views safe (BAM validate on read, BGZF seek offset bound)."
     " The indexing class K3 also covers std functions that assert a precondition on their arguments (Ord::clamp, step_by, div_euclid/rem_euclid, div_ceil, ilog*, from_digit), auto-discharged for constant arguments."
-    " (L) no endless loop: every loop around fill_buf has an exit controlled by the emptiness of the window (an empty window is BufRead's only EOF signal; consume(0) changes nothing). (P) field bounds stay inside the buffer: a CR popped from a caller-provided buffer was read by the same call (count >= 2 guard) or every caller hands over an empty buffer (genuine defect F30, repaired).")
+    " (L) no endless loop: every loop around fill_buf has an exit controlled by the emptiness of the window (an empty window is BufRead's only EOF signal; consume(0) changes nothing). (P) field bounds stay inside the buffer: a CR popped from a caller-provided buffer was read by the same call (count >= 2 guard) or every caller hands over an empty buffer (genuine defect F30, repaired)."
+    " (F) lazy cursor iterators built with iter::from_fn that yield io::Result reset their cursor on the error edge or are tabled as advancing before they can fail (genuine defect F34, repaired: the sam/bam data and sam cigar iterators yielded the same error for ever).")
 ASSUMPTIONS = [
     "the baseline sites (K2/K3/K4 not auto-discharged) are undecided, not safe: the claim for them is 'nothing new'",
     "class-hierarchy analysis over-approximates dynamic dispatch (more obligations, never fewer); no fn-pointer fields exist in workspace ADTs",
